@@ -3,6 +3,7 @@ package c04
 import (
 	"fmt"
 	"reflect"
+	"sort"
 	"strconv"
 	"strings"
 	"testing"
@@ -21,7 +22,13 @@ import (
 // whichever other place holds it too. The shared type descriptor describes
 // values as trees; a case therefore carries links
 //
-//	{from: path, to: path}     the place `to` holds the very pointer / map / slice stored at `from`
+//	{from: path, to: path}             the place `to` holds the very pointer / map / slice stored at `from`
+//	{from: path, to: path, addr: true}  the place `to` holds a pointer to the field / element `from` of the value itself
+//
+// The types of the two places are identical, or differ in name only (Go converts
+// *int to *MyInt, map[string]int to MyMap, *int64 to *time.Duration without
+// copying: one object, seen as a plain type with validate tags at one place and
+// as a named type with Validate() at the other).
 //
 // which newValue applies to the real and to the twin target after building them
 // from the tree (the tree holds a copy of the content at `to`, so everything
@@ -33,6 +40,9 @@ import (
 type aliasLink struct {
 	From []string `json:"from"`
 	To   []string `json:"to"`
+	// Addr: an interior pointer - the place To holds the ADDRESS of the field / element From (a value, not a
+	// reference) instead of what is stored there
+	Addr bool `json:"addr,omitempty"`
 }
 
 func withStep(steps []string, s string) []string {
@@ -116,8 +126,15 @@ func aliasGet(v reflect.Value, steps []string) (reflect.Value, bool) {
 // entries and values held by interfaces are copied out, changed and stored back).
 func aliasSet(v reflect.Value, steps []string, src reflect.Value) bool {
 	if len(steps) == 0 {
-		if !v.CanSet() || !src.Type().AssignableTo(v.Type()) {
+		if !v.CanSet() {
 			return false
+		}
+		if !src.Type().AssignableTo(v.Type()) {
+			// the same object under a type that differs in name only
+			if src.Kind() != v.Kind() || !src.Type().ConvertibleTo(v.Type()) {
+				return false
+			}
+			src = src.Convert(v.Type())
 		}
 		v.Set(src)
 		return true
@@ -179,7 +196,12 @@ func aliasSet(v reflect.Value, steps []string, src reflect.Value) bool {
 func applyAlias(root reflect.Value, links []aliasLink) error {
 	for i, l := range links {
 		src, ok := aliasGet(root, l.From)
-		if !ok || !shareable(src) {
+		if l.Addr {
+			if !ok || !src.CanAddr() || len(l.From) == 0 {
+				return fmt.Errorf("link %d: no addressable value at %v", i, l.From)
+			}
+			src = src.Addr()
+		} else if !ok || !shareable(src) {
 			return fmt.Errorf("link %d: no pointer, map or slice at %v", i, l.From)
 		}
 		if hasStepPrefix(l.To, l.From) || hasStepPrefix(l.From, l.To) {
@@ -269,6 +291,7 @@ func cloneTV(tv *gen.TV) *gen.TV {
 
 type aliasInfo struct {
 	from, to []string // configuration paths of the two places
+	fs, ts   []string // ... and their paths in the value
 	kind     string   // what is shared
 	where    string   // how the places relate
 	toIface  bool     // the place `to` is an interface
@@ -360,8 +383,22 @@ func changedInPlace(td *gen.TD) bool {
 		return false
 	case "ptr", "slice":
 		return !sh.Elem.Shape().IsLeaf()
+	case "map":
+		return true
 	}
-	return true
+	return false
+}
+
+// touches reports whether a place of one link is, encloses or lies inside a place of the other.
+func (a *aliasInfo) touches(b *aliasInfo) bool {
+	for _, x := range [][]string{a.fs, a.ts} {
+		for _, y := range [][]string{b.fs, b.ts} {
+			if hasStepPrefix(x, y) || hasStepPrefix(y, x) {
+				return true
+			}
+		}
+	}
+	return false
 }
 
 func holdsInit(td *gen.TD) bool {
@@ -388,7 +425,28 @@ func (c *Case) aliasInfos() ([]aliasInfo, error) {
 		if !ok1 || !ok2 || len(l.To) == 0 {
 			return nil, fmt.Errorf("link %d does not follow the type", i)
 		}
-		ai := aliasInfo{from: fp, to: tp, kind: sharedKind(ftd), toIface: ttd.Kind == "iface", mutable: changedInPlace(ftd), initIn: holdsInit(ftd)}
+		ai := aliasInfo{from: fp, to: tp, fs: l.From, ts: l.To, kind: sharedKind(ftd), toIface: ttd.Kind == "iface",
+			mutable: changedInPlace(ftd) || (ttd.Kind != "iface" && changedInPlace(ttd)), initIn: holdsInit(ftd) || holdsInit(ttd)}
+		if ttd.Kind != "iface" && !l.Addr && tdJSON(ftd) != tdJSON(ttd) {
+			ai.kind += ", seen under two types that differ in name only"
+		}
+		if l.Addr {
+			// the pointee is a field / element of the value: a setting for it changes it in place, and so does the
+			// InitDefaults of a value enclosing it
+			ai.kind, ai.mutable = "an interior pointer to a field / element of the value", true
+			if !ftd.Shape().IsLeaf() {
+				// a struct in a non-pointer field is rebuilt whenever its field comes up (a list in it is replaced under
+				// the replace policy even without a setting)
+				ai.initIn = true
+			}
+			for k := range l.From {
+				if _, etd, _, ok := c.follow(l.From[:k]); ok {
+					if info, isCat := cats[etd.Kind]; isCat && info.initDefaults {
+						ai.initIn = true
+					}
+				}
+			}
+		}
 		last := l.To[len(l.To)-1]
 		through := strings.Contains(strings.Join(l.From, "")+strings.Join(l.To[:len(l.To)-1], ""), "~")
 		switch {
@@ -423,6 +481,10 @@ func aliasText(c *Case) string {
 	}
 	var s []string
 	for _, ai := range infos {
+		if c.Alias[len(s)].Addr {
+			s = append(s, fmt.Sprintf("'%s' points to '%s' itself", strings.Join(ai.to, "."), strings.Join(ai.from, ".")))
+			continue
+		}
 		s = append(s, fmt.Sprintf("'%s' holds the very object stored at '%s' (%s)", strings.Join(ai.to, "."), strings.Join(ai.from, "."), ai.kind))
 	}
 	return "\n aliases " + strings.Join(s, "; ")
@@ -450,6 +512,43 @@ func (w *walker) posAt(path []string) pos {
 	return p
 }
 
+// refsBelow collects the names of the settings that the references inside a
+// setting lead to (an error about a value delivered through ${rN} names rN).
+func (w *walker) refsBelow(n *gen.Tree, into map[string]bool) {
+	if n == nil || !w.varexp {
+		return
+	}
+	if n.K == "str" {
+		if m := refRe.FindStringSubmatch(n.S); m != nil && !into[m[1]] {
+			into[m[1]] = true
+			w.refsBelow(w.root.Get(m[1]), into)
+		}
+		return
+	}
+	for _, v := range n.Vals {
+		w.refsBelow(v, into)
+	}
+}
+
+// placeEval describes a place of a shared object that is in flux as a
+// candidate for the name an error quotes: the place itself, everything below
+// it, and everything below the settings its references lead to.
+func (w *walker) placeEval(path []string) *eval {
+	p := w.posAt(path)
+	e := &eval{path: p.path, alts: p.alts, what: "a state of the shared object that settings overwrite", soft: true, below: true}
+	refs := map[string]bool{}
+	w.refsBelow(p.cfg, refs)
+	var names []string
+	for r := range refs {
+		names = append(names, r)
+	}
+	sort.Strings(names)
+	for _, r := range names {
+		e.alts = append(e.alts, []string{r})
+	}
+	return e
+}
+
 // ---------------------------------------------------------------------------
 // generator: sharing objects between places of the pre-filled value
 
@@ -466,12 +565,13 @@ type sharer struct {
 	srcs   []place // non-nil pointers, maps, slices and regular expressions of the pre-filled value
 	all    []place // every place of such a type, nil ones included
 	holder []place // the struct values a field can be added to
+	vals   []place // addressable values (fields and elements that are primitives, structs or arrays): what an interior pointer can point to
 	frozen map[*gen.TD]bool
 	n      int
 }
 
 func (s *sharer) scan() {
-	s.srcs, s.all, s.holder = nil, nil, nil
+	s.srcs, s.all, s.holder, s.vals = nil, nil, nil, nil
 	s.walk(s.c.T, s.c.Pre, nil)
 }
 
@@ -481,6 +581,10 @@ func (s *sharer) walk(td *gen.TD, tv *gen.TV, steps []string) {
 	}
 	sh := td.Shape()
 	here := place{steps: append([]string{}, steps...), td: td, tv: tv}
+	if k := sh.Kind; len(steps) > 0 && !strings.ContainsAny(strings.Join(steps, " "), "~k") && (k == "struct" || k == "array" || (sh.IsLeaf() && k != "regexp")) {
+		// (map entries and values held by interfaces have no address)
+		s.vals = append(s.vals, here)
+	}
 	switch sh.Kind {
 	case "iface":
 		if isDynTV(tv) && int(tv.U) < len(s.c.Dyn) {
@@ -628,10 +732,13 @@ func (s *sharer) freshSource() (place, bool) {
 		}
 		assignTags(t, st, 0)
 		ft = tdOf("ptr", st)
-	case 6:
-		ft = tdOf("map", leaf())
-	case 7:
-		ft = tdOf("slice", leaf())
+	case 6, 7:
+		// (every second one of int: the named maps and lists of the catalogue are maps and lists of int)
+		e := leaf()
+		if rapid.Bool().Draw(t, "fint") {
+			e = ptd("int")
+		}
+		ft = tdOf([]string{"map", "slice"}[rapid.IntRange(0, 1).Draw(t, "fms")], e)
 	case 8:
 		ft = tdOf(rapid.SampledFrom([]string{"slice", "map"}).Draw(t, "fcoll"), tdOf("ptr", leaf()))
 	case 9:
@@ -674,10 +781,97 @@ func (s *sharer) dynIndex(td *gen.TD) int {
 	return len(s.c.Dyn) - 1
 }
 
+// underKey names the representation of a shareable type up to type names: Go
+// converts between types with the same key without copying the object.
+func underKey(td *gen.TD) (string, bool) {
+	leafUnder := func(x *gen.TD) (string, bool) {
+		sh := x.Shape()
+		if !sh.IsLeaf() || sh.Kind == "regexp" {
+			return "", false
+		}
+		if b := sh.Base(); b == "dur" {
+			return "int64", true
+		} else {
+			return b, true
+		}
+	}
+	switch sh := td.Shape(); sh.Kind {
+	case "ptr":
+		if td.Kind != "ptr" {
+			return "", false
+		}
+		if u, ok := leafUnder(td.Elem); ok {
+			return "ptr:" + u, true
+		}
+	case "map", "slice":
+		// (the element types must be identical: map[string]int converts to a named map of int only)
+		if _, plain := primTypesOf[sh.Elem.Kind]; plain {
+			return sh.Kind + ":" + sh.Elem.Kind, true
+		}
+	}
+	return "", false
+}
+
+var primTypesOf = func() map[string]bool {
+	m := map[string]bool{}
+	for _, k := range gen.PrimKinds {
+		m[k] = true
+	}
+	return m
+}()
+
+// convertibles returns the types that differ from td in name only.
+func convertibles(td *gen.TD) []*gen.TD {
+	key, ok := underKey(td)
+	if !ok {
+		return nil
+	}
+	var cands []*gen.TD
+	add := func(c *gen.TD) {
+		if k, ok := underKey(c); ok && k == key && tdJSON(c) != tdJSON(td) {
+			cands = append(cands, c)
+		}
+	}
+	if strings.HasPrefix(key, "ptr:") {
+		for _, k := range gen.PrimKinds {
+			add(tdOf("ptr", ptd(k)))
+		}
+		for _, k := range gen.NamedKinds {
+			if k != "named:string" {
+				add(tdOf("ptr", ptd(k)))
+			}
+		}
+		add(tdOf("ptr", ptd("dur")))
+		for _, k := range catKinds {
+			add(tdOf("ptr", ptd(k)))
+		}
+	} else {
+		kind, elem, _ := strings.Cut(key, ":")
+		add(tdOf(kind, ptd(elem)))
+		for _, k := range catKinds {
+			add(ptd(k))
+		}
+	}
+	return cands
+}
+
 // link stores one object of the pre-filled value at a second place.
 func (s *sharer) link() bool {
 	t := s.t
 	s.scan()
+	mode := rapid.IntRange(0, 15).Draw(t, "mode")
+	if mode >= 14 && len(s.vals) > 0 {
+		// an interior pointer: a new pointer field that points to a field / element of the value itself
+		src := s.vals[rapid.IntRange(0, len(s.vals)-1).Draw(t, "val")]
+		if h, ok := s.pickHolder(src); ok {
+			clone := cloneTD(src.td)
+			to := s.addField(h, tdOf("ptr", clone), &gen.TV{Elems: []*gen.TV{cloneTV(src.tv)}})
+			tdNodes(src.td, s.frozen)
+			tdNodes(clone, s.frozen)
+			s.c.Alias = append(s.c.Alias, aliasLink{From: src.steps, To: to, Addr: true})
+			return true
+		}
+	}
 	var src place
 	ok := false
 	if len(s.srcs) == 0 || rapid.IntRange(0, 2).Draw(t, "fresh") == 0 {
@@ -700,8 +894,38 @@ func (s *sharer) link() bool {
 		}
 		return false
 	}
-	mode := rapid.IntRange(0, 11).Draw(t, "mode")
-	if mode >= 10 {
+	insideShared := func(steps []string) bool {
+		for _, l := range s.c.Alias {
+			if hasStepPrefix(steps, l.From) || hasStepPrefix(steps, l.To) {
+				return true
+			}
+		}
+		return false
+	}
+	h, haveHolder := s.pickHolder(src)
+	if mode == 13 && len(src.steps) > 0 {
+		// one more element / entry of the collection the object is an element of
+		parent := src.steps[:len(src.steps)-1]
+		if _, ptd, ptv, ok := s.c.follow(parent); ok && ptv != nil && !ptv.Nil && !insideShared(parent) && (ptd.Shape().Kind == "slice" || ptd.Shape().Kind == "map") {
+			var step string
+			if ptd.Shape().Kind == "slice" {
+				step = "i" + strconv.Itoa(len(ptv.Elems))
+			} else {
+				key := "n"
+				for entryTV(ptv, key) != nil {
+					key += "n"
+				}
+				ptv.Keys = append(ptv.Keys, key)
+				step = "k" + key
+			}
+			ptv.Elems = append(ptv.Elems, cloneTV(src.tv))
+			tdNodes(ptd, s.frozen)
+			s.c.Alias = append(s.c.Alias, aliasLink{From: src.steps, To: withStep(parent, step)})
+			return true
+		}
+		mode = 9
+	}
+	if mode == 9 || mode == 10 || !haveHolder {
 		// a place of the same type that exists already (two elements of one collection, two fields of one type, ...)
 		srcT := src.td.Type()
 		var partners []place
@@ -721,11 +945,18 @@ func (s *sharer) link() bool {
 		}
 		mode = 0
 	}
-	h, ok := s.pickHolder(src)
-	if !ok {
+	if !haveHolder {
 		return false
 	}
 	clone := cloneTD(src.td)
+	if mode == 11 || mode == 12 {
+		// the same object under a type that differs in name only: plain / named primitive / catalogue type with
+		// Validate() behind the pointer, plain / named map or list
+		if cands := convertibles(src.td); len(cands) > 0 {
+			clone = cands[rapid.IntRange(0, len(cands)-1).Draw(t, "conv")]
+		}
+		mode = 0
+	}
 	var to []string
 	var more [][]string
 	switch {
@@ -879,9 +1110,9 @@ func genShared(t *rapid.T) Case {
 
 var subShared = runlog.Register(&runlog.Sub[Case]{
 	Name: "shared-prefill",
-	Rule: "TODO",
+	Rule: "a case of twin-differential (same type generator, catalogue, tags, policies, VarExp, interfaces; 1 in 12 a collection target) whose pre-filled value (never the zero value) is a GRAPH: 1 to 3 times (1 in half of the cases) an object of the pre-filled value is stored at a second place, and the case carries the links (from, to) that newValue applies to the real and to the twin target after building them from the tree. The shared object is a non-nil pointer (to a primitive, duration, named or catalogue type, struct, collection, pointer), map, slice or *regexp.Regexp found anywhere in the pre-filled value - fields, elements, entries, pointees, typed values held by interfaces - or, in 1 link of 3, a new field of such a type added to a struct of the value (empty maps and slices included); the second place is, by draw: a new field of the same type in the enclosing struct or in any other struct of the value (nested, behind pointers, inside collections, inline, inside interface-held values); an element / entry of a new slice, array or map field whose other element holds a COPY (same content, other object), sometimes both elements; a new interface{} field or an element of a new []interface{} / map[string]interface{} field holding the object (its type joins the dynamic types of the case); the pointee of a new pointer field (**T); a place of the same type that exists already (two fields, two elements of one collection); one more element / entry of the collection the object is an element of; a new field whose type differs in name only - Go converts *int to *NamedInt or to a pointer to a catalogue type with Validate(), *int64 to *time.Duration, map[string]int / []int to a named map / list with Validate() or InitDefaults without copying, so one object is judged by tags at one place and by Validate() at the other -; and in 1 link of 8 an INTERIOR pointer: a new pointer field that points to a primitive, struct or array field / element of the value itself. Most new fields carry validators of their own (5 in 6; drawn like all tags), so the places of one object carry different validators. Cyclic values are never built (the unchanged library does not terminate on them) and the generator checks every link against the built value. The configuration is written after the links (settings for any place, explicit nil included); in a third of the cases the settings of both places of every link are taken out again, in another third those of one place. Oracle of twin-differential, which decides every place on its own: the reference validators walk the value R of the twin target (same links) as a tree, so every place's validators apply to the value found there after Unpack; one rejects => Unpack fails naming that field, all accept => Unpack succeeds with a result equal to R. Reading decision for objects the code changes in place (it merges settings into a struct or array behind a non-nil pointer and into a map in place - a nil map behind a pointer becomes an empty one -, rebuilds a struct in a non-pointer field and initialises a map with InitDefaults whenever the field comes up, so the pointee of an interior pointer changes too): such an object has no single value for its other places - the code judges each place in the state the object has when the field comes up, R shows the final state only. If one of the places of such an object (or of a link touching it) has a setting or holds a type with InitDefaults, the validators at and below its places are not decisive (either verdict) and a failure naming a path at or below such a place, or below a setting its references lead to, is accepted; all other places, and all objects a setting only replaces at its own place (pointers to primitives and durations, regular expressions, lists of primitives) or none of whose places has a setting, are decided strictly. Classes: what is shared, how the places relate, which places have settings, and `the validators of one place reject the object, those of the other place accept it` (with `no place has a setting`: the class in which skipping the validators of a later place of an object seen before shows). Non-trivial and distinct as in twin-differential (links included in the hash).",
 	Gen:  genShared,
 	Run:  runCase,
 })
 
-func TestSharedPrefill(t *testing.T) { subShared.Check(t, 60000, 1000000) }
+func TestSharedPrefill(t *testing.T) { subShared.Check(t, 60000, 600000) }
